@@ -622,6 +622,36 @@ FromArray(a, r, p, q) ==
                     errsq |-> IF HasIsl(o) THEN SumSq(isl.sig, (1..K) \ keep) * IslScaleSq(isl) ELSE -1],
                    <<res>>, <<>>)
 
+
+\* ------------------------------------------------------- documented error paths
+\* A call with inadmissible arguments raises the documented exception and changes nothing: no new object,
+\* no target.  "what" names the call and the kind of inadmissibility, "exc" the documented exception type.
+RejectKinds ==
+    {<<"add_dims", "ValueError">>, <<"add_type", "TypeError">>, <<"mul_type", "TypeError">>, <<"matmul_dims", "ValueError">>,
+     <<"matmul_type", "TypeError">>, <<"element_len", "ValueError">>, <<"element_range", "IndexError">>,
+     <<"element_type", "TypeError">>, <<"tensordot_axes", "ValueError">>, <<"tensordot_mode", "ValueError">>,
+     <<"tensordot_num", "ValueError">>, <<"norm_p", "ValueError">>, <<"ortho_threshold", "ValueError">>,
+     <<"ortho_maxrank", "ValueError">>, <<"ortho_index_type", "TypeError">>, <<"full_open", "ValueError">>,
+     <<"concat_ranks", "ValueError">>, <<"ranktd_ndim", "ValueError">>, <<"ranktd_dims", "ValueError">>,
+     <<"ranktd_mode", "ValueError">>, <<"init_type", "TypeError">>, <<"init_ndim", "ValueError">>,
+     <<"init_ranks", "ValueError">>, <<"init_odd", "ValueError">>}
+Applicable(kind, a, b) ==
+    CASE kind = "add_dims" -> Closed(pool[a]) /\ Closed(pool[b]) /\ ~SameDims(pool[a], pool[b])
+      [] kind = "matmul_dims" -> Closed(pool[a]) /\ Closed(pool[b]) /\ pool[a].d.cd # pool[b].d.rd
+      [] kind = "tensordot_axes" -> Closed(pool[a]) /\ Closed(pool[b]) /\ Order(pool[a]) >= 1 /\ Order(pool[b]) >= 1
+                                    /\ (pool[a].d.rd[Order(pool[a])] # pool[b].d.rd[1] \/ pool[a].d.cd[Order(pool[a])] # pool[b].d.cd[1])
+      [] kind = "tensordot_num" -> Closed(pool[a]) /\ Closed(pool[b])
+      [] kind = "tensordot_mode" -> Closed(pool[a]) /\ Closed(pool[b])
+      [] kind = "concat_ranks" -> Exact(pool[a]) /\ Exact(pool[b]) /\ pool[a].d.rN # pool[b].d.r0
+      [] kind = "full_open" -> Exact(pool[a]) /\ (pool[a].d.r0 # 1 \/ pool[a].d.rN # 1)
+      [] kind \in {"ortho_threshold", "ortho_maxrank", "ortho_index_type"} -> ClosedB(pool[a]) /\ Order(pool[a]) >= 2
+      [] kind \in {"ranktd_ndim", "ranktd_dims", "ranktd_mode"} -> Exact(pool[a])
+      [] OTHER -> Closed(pool[a])
+Reject(kind, exc, a, b) ==
+    /\ "Reject" \in Ops
+    /\ Applicable(kind, a, b)
+    /\ Step([op |-> "Reject", what |-> kind, exc |-> exc, a |-> a, b |-> b], <<>>, <<>>)
+
 \* ----------------------------------------------------------------- Next
 BOOL2 == {FALSE, TRUE}
 Next ==
@@ -669,6 +699,7 @@ Next ==
              \/ \E k \in 1..Max(MaxD, MaxDB), mode \in TDModes, ow \in OWs : Tensordot(a, b, k, mode, ow)
              \/ \E form \in {"tt", "list"}, ow \in OWs : Concatenate(a, b, form, ow)
        \/ \E a \in Ids, x \in Ids, b \in Ids : Residual(a, x, b)
+       \/ \E a \in Ids, b \in Ids, ke \in RejectKinds : Reject(ke[1], ke[2], a, b)
        \/ \E rd \in CtorDims, cd \in CtorDims, r \in RanksS : Zeros(rd, cd, r) \/ Ones(rd, cd, r)
        \/ \E dims \in CtorDims : Eye(dims)
        \/ \E dims \in CtorDims : \E inds \in {f \in [1..Len(dims) -> 0..2] : \A k \in 1..Len(dims) : f[k] < dims[k]} :
